@@ -85,6 +85,8 @@ def long_signals(cplx, n=64):
 
 def T(v, cplx):
     import torch
+    if _DOUBLE:
+        return torch.tensor(v, dtype=torch.complex128 if cplx else torch.float64)
     return torch.tensor(v, dtype=torch.complex64 if cplx else torch.float32)
 
 
@@ -369,7 +371,44 @@ def chains_case(p, res):
             res.ev(1, nontrivial=1, transitions=3)
             if not (torch.equal(y1, y2) and torch.equal(comp2(X), y2)):
                 res.viol("composite", f"{pool[a][0]}+{pool[b][0]}+{pool[a][0]}(same instance)", "composite=sequential", "a chain that uses the same constraint instance twice differs from sequential application")
-    res.sample({"chains": 155 + 20})
+    # the helpers do not change what they are given: after combine_constraints / apply_constraint_chain / CompositeConstraint(...) has been
+    # called with a composite (or plain constraint) among its arguments, that argument still does exactly what it did before, and the combined
+    # object is the sequential application of its parts
+    from kaira.constraints.utils import create_mimo_constraints, create_ofdm_constraints
+    makers = [("ofdm", lambda: create_ofdm_constraints(total_power=1.0, max_papr=4.0)), ("mimo", lambda: create_mimo_constraints(num_antennas=2, total_power=2.0)),
+              ("composite", lambda: KC.CompositeConstraint([KC.AveragePowerConstraint(2.0), KC.PeakAmplitudeConstraint(0.8)])),
+              ("combined", lambda: combine_constraints([KC.TotalPowerConstraint(1.0), KC.PAPRConstraint(3.0)])), ("plain", lambda: KC.TotalPowerConstraint(1.0))]
+    Xc = torch.stack([T(vs, False) for vs in list(long_signals(False).values())[:4]]).reshape(4, 2, -1)
+    for mname, mkc in makers:
+        for pos in ("first", "last", "middle"):
+            for how in ("combine_constraints", "CompositeConstraint", "apply_constraint_chain"):
+                try:
+                    comp = mkc()
+                    before = comp(Xc)
+                    extra, extra2 = KC.TotalPowerConstraint(4.0), KC.AveragePowerConstraint(0.3)
+                    parts = {"first": [comp, extra], "last": [extra, comp], "middle": [extra2, comp, extra]}[pos]
+                    if how == "combine_constraints":
+                        combined = combine_constraints(parts)
+                        yc = combined(Xc)
+                    elif how == "CompositeConstraint":
+                        combined = KC.CompositeConstraint(parts)
+                        yc = combined(Xc)
+                    else:
+                        yc = apply_constraint_chain(parts, Xc)
+                    after = comp(Xc)
+                    seq = Xc
+                    for c_ in parts:
+                        seq = c_(seq)
+                except Exception as e:  # noqa: BLE001
+                    res.viol("composite", f"{mname},{pos},{how}", "raises", f"{type(e).__name__}: {str(e)[:160]}")
+                    continue
+                res.ev(1, nontrivial=1, transitions=4)
+                if not torch.equal(before, after):
+                    res.viol("composite", f"{mname},{pos},{how}", "argument-intact", f"a {mname} constraint passed ({pos}) to {how} behaves differently afterwards: item powers "
+                             f"{[round(v_, 4) for v_ in item_power(before, 'total')]} before, {[round(v_, 4) for v_ in item_power(after, 'total')]} after")
+                elif not torch.allclose(yc, seq, rtol=1e-6, atol=1e-7):
+                    res.viol("composite", f"{mname},{pos},{how}", "composite=sequential", f"{how}({pos}: {mname}) differs from applying its parts one after the other")
+    res.sample({"chains": 155 + 20, "helper_purity": len(makers) * 9})
 
 
 def ofdm_case(p, res):
